@@ -78,6 +78,9 @@ def diffCols2 (mysql : Bool) (t : Table) : List Column → List Column → M Tab
       else pure t : M Table)
     diffCols2 mysql t' (before ++ [oc]) rest
 
+/-- `sameIndexType`: an unspecified index type is the default one -/
+def normIdxType (t : String) : String := if t == "" then "BTREE" else t
+
 def diffIdx1 (old : Table) : List Index → M (List Index)
   | [] => pure []
   | i :: rest => do
@@ -86,7 +89,8 @@ def diffIdx1 (old : Table) : List Index → M (List Index)
         | some j => do
           let oi ← getIdx "Table.Diff" old.idxs j
           if oi.action != .none then
-            if i.typ == oi.typ && i.cols == oi.cols then pure { i with action := .none }
+            if i.typ == oi.typ && i.cols == oi.cols && normIdxType i.indexType == normIdxType oi.indexType then
+              pure { i with action := .none }
             else pure { i with action := .modify, prev := some oi.toDef }
           else pure i
         | none => pure i
